@@ -6,6 +6,7 @@ All randomness comes from Hypothesis.
 """
 from hypothesis import strategies as st
 
+from vlib import binarizers
 from vlib.ops import LINEAR, TREE_COMPATIBLE
 
 EXACT_METRICS = ["cityblock", "chebyshev", "sqeuclidean", "euclidean"]
@@ -126,7 +127,7 @@ def binarizer_st(arms):
     strkey = st.fixed_dictionaries({
         "kind": st.just("strkey"),
         "table": st.lists(st.sampled_from([1.5, 2, 3, 0.5, 5, -1, 10]), min_size=len(arms),
-                          max_size=len(arms)).map(lambda ts: [[str(a), t] for a, t in zip(arms, ts)]),
+                          max_size=len(arms)).map(lambda ts: [[binarizers.key_of(a), t] for a, t in zip(arms, ts)]),
         "default": st.sampled_from([2, 0.5, 3]),
     })
     return st.one_of(thr, thr, strkey, st.just({"kind": "parity"}), st.just({"kind": "flip"}))
